@@ -55,3 +55,115 @@ Proof. intro f. destruct f; vm_compute; split; reflexivity. Qed.
 
 Print Assumptions case_insensitive_nested_refuted.
 Print Assumptions map_key_taken_for_field_refuted.
+
+(* ------------------------------------------------------------------ seeded change C17-3:
+   buildFieldsInfo no longer dereferences its argument; every call site passes a dereferenced
+   type except the slice / array case of buildNamedFieldInfo, which passes the raw element type.
+   So a NAMED field of type []*T gets a leaf info, and the keys inside its elements are no
+   longer lower-cased.  [pin3_fields T] is the type whose current field info is the pinned one
+   of T. *)
+Fixpoint pin3_named (t : ftype) : ftype :=
+  match t with
+  | TPrim k => TPrim k
+  | TPtr t' => pin3_named t'                       (* the caller dereferenced the field type *)
+  | TSlice (TPtr _) => TPrim KStr                  (* Kind Ptr: default branch, a leaf *)
+  | TSlice e => TSlice (pin3_any e)
+  | TMap e => TMap (pin3_any e)
+  | TStruct fs => TStruct (pin3_fields fs)
+  end
+with pin3_any (t : ftype) : ftype :=
+  match t with
+  | TPrim k => TPrim k
+  | TPtr t' => TPtr (pin3_any t')
+  | TSlice e => TSlice (pin3_any e)
+  | TMap e => TMap (pin3_any e)
+  | TStruct fs => TStruct (pin3_fields fs)
+  end
+with pin3_fields (fs : fields) : fields :=
+  match fs with
+  | FNil => FNil
+  | FCons key o t rest => FCons key o (pin3_named t) (pin3_fields rest)
+  | FEmbed opt ptr inner rest => FEmbed opt ptr (pin3_fields inner) (pin3_fields rest)
+  end.
+
+Definition load_pin3 (T : fields) (f : fmt) (d : doc) : result gval :=
+  match info_fields (pin3_fields T) fi_empty, shape rf_go f d with
+  | Some info, JObj o => unmarshal fixed ccfg (lower_fields T) (Some (JObj (lc_obj info o)))
+  | None, _ => Err ETag
+  | _, _ => Err EDoc
+  end.
+
+(* Nodes []*struct{ Host string; MaxConn int } *)
+Definition t_nodes : fields :=
+  FCons "Nodes" None (TSlice (TPtr (TStruct (FCons "Host" None (TPrim KStr) (FCons "maxConn" None (TPrim (KInt W0)) FNil))))) FNil.
+Definition d_nodes (k h c : string) : doc :=
+  DMap (DMcons k (DList (DLcons (DMap (DMcons h (DStr "h1") (DMcons c (DInt 3) DMnil))) DLnil)) DMnil).
+
+Theorem slice_of_pointers_refuted : forall f,
+  tr_top t_nodes (d_nodes "Nodes" "Host" "maxConn") (d_nodes "nodes" "host" "maxconn") = true /\
+  load_pin3 t_nodes f (d_nodes "Nodes" "Host" "maxConn") = Err ENotSet /\
+  load_pin3 t_nodes f (d_nodes "nodes" "host" "maxconn") = Ok (VStruct [VSlice [VPtr (VStruct [VStr "h1"; VInt 3])]]).
+Proof. intro f. destruct f; vm_compute; repeat split. Qed.
+
+Theorem slice_of_pointers_fixed : forall f,
+  load_doc rf_go t_nodes f (d_nodes "Nodes" "Host" "maxConn") = load_doc rf_go t_nodes f (d_nodes "nodes" "host" "maxconn") /\
+  load_doc rf_go t_nodes f (d_nodes "NODES" "HOST" "MaxConn") = Ok (VStruct [VSlice [VPtr (VStruct [VStr "h1"; VInt 3])]]).
+Proof. intro f. destruct f; vm_compute; split; reflexivity. Qed.
+
+(* ------------------------------------------------------------------ repaired defect F20: an
+   anonymous field of a declared slice type (type Nodes []*Node; struct{ Nodes }) was a leaf in
+   buildAnonymousFieldInfo ([skel_fields_v false]): the map handed to the unmarshaller differs for
+   a document and its re-cased twin, i.e. the element keys were matched case-sensitively *)
+From GZ Require Import C17.Shapes.
+
+Definition x_anon : xfields :=
+  XEmbedT "C17Nodes" (XSlice (XPtr (XStruct (XCons "Host" None (XPrim KStr) (XCons "maxConn" None (XPrim (KInt W0)) XNil))))) XNil.
+
+Definition xlower_v (anon_slice : bool) (T : xfields) (d : doc) : option jv :=
+  option_map (fun i => lc_val (shape rf_go FJson d) i) (info_fields (skel_fields_v anon_slice T) fi_empty).
+
+Theorem anonymous_slice_refuted :
+  xkeys_distinct x_anon = true /\
+  xtr_top x_anon (d_nodes "C17Nodes" "Host" "maxConn") (d_nodes "c17nodes" "host" "maxconn") = true /\
+  xlower_v false x_anon (d_nodes "C17Nodes" "Host" "maxConn") <> xlower_v false x_anon (d_nodes "c17nodes" "host" "maxconn") /\
+  xlower_v true x_anon (d_nodes "C17Nodes" "Host" "maxConn") = xlower_v true x_anon (d_nodes "c17nodes" "host" "maxconn").
+Proof. vm_compute. repeat split. discriminate. Qed.
+
+(* ------------------------------------------------------------------ seeded change C17-2: the YAML
+   path formats a float64 with the digits of a float32.  [leaves_ok] is exactly the hypothesis it
+   breaks, and without it format independence fails *)
+Definition rf_f32 (f : fmt) (s : string) : string :=
+  match f with
+  | FYaml => if String.eqb s "3.141592653589793" then "3.1415927" else rf_go f s
+  | _ => rf_go f s
+  end.
+
+Theorem yaml_float32_digits_refuted : exists T d,
+  fam_fields T = true /\ rep_top d = true /\ float_positions_ok T d = true /\
+  leaves_ok rf_go d = true /\ leaves_ok rf_f32 d = false /\
+  load_doc rf_f32 T FJson d = Ok (VStruct [VFloat (FDec (mkDec 3141592653589793 (-15)))]) /\
+  load_doc rf_f32 T FYaml d = Ok (VStruct [VFloat (FDec (mkDec 31415927 (-7)))]) /\
+  load_doc rf_go T FYaml d = load_doc rf_go T FJson d.
+Proof.
+  exists (FCons "pi" None (TPrim KF64) FNil), (DMap (DMcons "pi" (DFloat "3.141592653589793") DMnil)).
+  vm_compute. repeat split.
+Qed.
+
+(* ------------------------------------------------------------------ seeded change C17-1: the
+   option set shared between calls ([load_history true], ProofsF.v): a call WITHOUT conf.UseEnv()
+   after one with it expands the environment *)
+From GZ Require Import C17.ProofsF.
+
+Theorem sticky_options_refuted : exists T env calls,
+  nth_error (load_history true rf_go T FJson env false calls) 1 = Some (Ok (VStruct [VStr "secret"])) /\
+  nth_error (load_history false rf_go T FJson env false calls) 1 = Some (Ok (VStruct [VStr "$C17_A"])).
+Proof.
+  exists (FCons "dsn" None (TPrim KStr) FNil), [("C17_A", "secret")],
+         [(true, DMap (DMcons "dsn" (DStr "x") DMnil)); (false, DMap (DMcons "dsn" (DStr "$C17_A") DMnil))].
+  vm_compute. split; reflexivity.
+Qed.
+
+Print Assumptions slice_of_pointers_refuted.
+Print Assumptions anonymous_slice_refuted.
+Print Assumptions yaml_float32_digits_refuted.
+Print Assumptions sticky_options_refuted.
